@@ -126,7 +126,14 @@ def gen_case(rng, pid, tier):
             # a twin: same placement shape (affinity, lease, traits, allocation) as an earlier instance,
             # demand at least as large - what the feasibility tracker and the restore path key on
             t = rng.choice(made)
-            a[3] = [d + rng.choice([0, 0, 0, 1]) for d in t[3]]
+            if rng.random() < 0.3:
+                # incomparable with the original: one dimension larger, another smaller
+                a[3] = list(t[3])
+                i, j = rng.sample(range(3), 2)
+                a[3][i] += rng.choice([1, 2, 3])
+                a[3][j] = max(1, a[3][j] - rng.choice([1, 2, 3]))
+            else:
+                a[3] = [d + rng.choice([0, 0, 0, 1]) for d in t[3]]
             a[4], a[5], a[7], a[10], a[11] = t[4], t[5], t[7], t[10], t[11]
             if rng.random() < 0.5:
                 a[8] = t[8]
@@ -244,6 +251,15 @@ def gen_case(rng, pid, tier):
                          rng.choice([0, 30, None]), rng.choice([0, 0, 40, 100]),
                          rng.choice([None, None, 1]), False, rng.choice([0, 0, 2, 4]),
                          rng.choice([a for a in allocs if a[6] is None])[0]]
+        same = [t for t in made if t[8] is None]
+        if same and rng.random() < 0.4:
+            # the probe shares the placement shape of earlier (possibly pending) instances and asks for less:
+            # what the feasibility tracker recorded for them must not hide a server that fits the probe
+            t = rng.choice(same)
+            pr = case['probe']
+            pr[3] = [max(1, d - rng.choice([0, 1, 2, 4])) for d in t[3]]
+            pr[4], pr[5], pr[7], pr[10], pr[11] = t[4], t[5], t[7], t[10], t[11]
+            pr[8] = None
     return case
 
 
@@ -280,6 +296,11 @@ class World:
         self.label_id = {None: 0, 'p2': 1}
         self.queues = []
         self.choices = []
+        # what the history itself says (kept by the harness, never read back from the objects under test): the
+        # monitors use these instead of fields a defect could have corrupted
+        self.spec_lease = {}                  # app name -> lease asked for
+        self.spec_bl = {}                     # app name -> blacklisted, as the history last said
+        self.shadow_state = {}                # server name -> (state, since) according to the ops applied
 
     def alloc_line(self, alid):
         al = self.allocs[alid]
@@ -345,22 +366,64 @@ def _install_capture(world):
     return mock.patch.object(sch.Cell, '_find_placements', fp), mock.patch.object(sch.IdentityGroup, 'acquire', acq)
 
 
+def _owner_allocs(world):
+    """app name -> (partition label, allocation) of the allocation that queues it, found by walking the
+    partitions' allocation trees (independent of `app.allocation`)."""
+    out = {}
+
+    def walk(label, al):
+        for an in al.apps:
+            out[an] = (label, al)
+        for sub in al.sub_allocations.values():
+            walk(label, sub)
+    for label, part in world.cell.partitions.items():
+        walk(label, part.allocation)
+    return out
+
+
+def _app_constraints(world, owners, a):
+    """(partition label, traits) the instance is bound to: from the allocation that queues it."""
+    label, al = owners.get(a.name, (None, None))
+    if al is None:
+        al = a.allocation
+        label = al.label if al is not None else None
+    traits = a.traits if a.allocation is al else (getattr(a, '_traits', 0) | (al.traits if al is not None else 0))
+    return label, traits
+
+
+def _is_bl(world, a):
+    """Blacklisted according to the history (the stored blacklist / the last `bl` step), not the flag."""
+    f = getattr(world, 'blacklist_spec', None)
+    if f is not None:
+        return f(a.name)
+    return getattr(world, 'spec_bl', {}).get(a.name, a.blacklisted)
+
+
+def _since(world, srv):
+    sh = getattr(world, 'shadow_state', {}).get(srv.name)
+    if sh is not None and sh[0] == srv.state.value:
+        return sh[1]
+    return srv.get_state()[1]
+
+
 def _snapshot(world):
     """State needed by the monitors at cycle start."""
     sch = world.sch
     snap = {}
+    owners = _owner_allocs(world)
     for aid, a in world.apps.items():
         if a.name not in world.cell.apps:
             continue
         srv = world.cell.members().get(a.server) if a.server else None
         g = a.identity_group_ref
+        label, traits = _app_constraints(world, owners, a)
         snap[aid] = {
-            'server': a.server, 'expiry': a.placement_expiry, 'bl': a.blacklisted, 'renew': a.renew,
+            'server': a.server, 'expiry': a.placement_expiry, 'bl': a.blacklisted or _is_bl(world, a), 'renew': a.renew,
             'unsched': a.unschedule,
             'srv_state': srv.state.value if srv else None,
-            'srv_since': srv.get_state()[1] if srv else None,
-            'eligible': bool(srv) and a.allocation.label in srv.labels and
-            (a.traits == 0 or srv.traits.has(a.traits)),
+            'srv_since': _since(world, srv) if srv else None,
+            'eligible': bool(srv) and label in srv.labels and
+            (traits == 0 or srv.traits.has(traits)),
             'id_invalid': (a.identity is not None and g is not None and a.identity >= g.count),
             'retention': a.data_retention_timeout,
             'renew_fails': bool(srv) and a.renew and not srv.check_app_lifetime(a),
@@ -413,21 +476,26 @@ def monitors(world, pid, snap, queues, run, hist_tags):
             if a.server and (a.server not in members or an not in members[a.server].apps):
                 H('views-disagree', 'cycle', (an, a.server))
     elif pid == 'C03':
+        owners = _owner_allocs(world)
+        spec_lease = getattr(world, 'spec_lease', {})
         for aid, a in after.items():
             if a.server is None:
                 continue
             s = members.get(a.server)
             if s is None:
                 continue
-            if a.allocation.label not in s.labels:
+            # partition and traits of the allocation that queues the instance; the lease it asked for
+            label, traits = _app_constraints(world, owners, a)
+            lease = spec_lease.get(a.name, a.lease)
+            if label not in s.labels:
                 H('wrong-partition', 'after-cycle', (a.name, a.server))
-            if a.traits != 0 and not s.traits.has(a.traits):
+            if traits != 0 and not s.traits.has(traits):
                 H('missing-traits', 'after-cycle', (a.name, a.server))
             if aid in gained:
                 if s.state is not sch.State.up:
                     H('assigned-to-non-up', 'assign', (a.name, a.server, s.state.value))
-                if a.lease and not (world.now + a.lease < s.valid_until):
-                    H('lease-beyond-reboot', 'assign', (a.name, a.server, a.lease, s.valid_until))
+                if lease and not (world.now + lease < s.valid_until):
+                    H('lease-beyond-reboot', 'assign', (a.name, a.server, lease, s.valid_until))
     elif pid == 'C04':
         def walk(node):
             cnt = collections.Counter()
@@ -450,16 +518,22 @@ def monitors(world, pid, snap, queues, run, hist_tags):
             return cnt
         walk(cell)
     elif pid == 'C05':
-        for gname, g in cell.identity_groups.items():
+        # by group *name* (what is published), not by the group object an instance happens to reference
+        bygroup = collections.defaultdict(list)
+        for a in cell.apps.values():
+            if a.identity_group:
+                bygroup[a.identity_group].append(a)
+        for gname, l_apps in bygroup.items():
+            g = cell.identity_groups.get(gname)
             held = collections.defaultdict(list)
-            for a in cell.apps.values():
-                if a.identity_group_ref is g and a.identity is not None:
+            for a in l_apps:
+                if a.identity is not None:
                     held[a.identity].append(a.name)
-                    if a.identity >= g.count:
-                        H('identity-out-of-range', 'cycle', (a.name, a.identity, g.count))
+                    if g is None or a.identity >= g.count:
+                        H('identity-out-of-range', 'cycle', (a.name, a.identity, None if g is None else g.count))
                     if not a.server:
                         H('unplaced-holds-identity', 'cycle', (a.name, a.identity))
-                if a.identity_group_ref is g and a.server and a.identity is None:
+                if a.server and a.identity is None and a.identity_group_ref is not None:
                     H('placed-without-identity', 'cycle', (a.name,))
             for k, l in held.items():
                 if len(l) > 1:
@@ -503,7 +577,7 @@ def monitors(world, pid, snap, queues, run, hist_tags):
             if s is not None and s.state is not sch.State.up:
                 H('new-app-on-non-up-server', 'cycle', (after[aid].name, s.name, s.state.value))
         for aid, a in after.items():
-            if a.blacklisted and a.server is not None:
+            if (a.blacklisted or _is_bl(world, a)) and a.server is not None:
                 H('blacklisted-placed', 'cycle', (a.name, a.server))
 
 
@@ -624,6 +698,8 @@ def _mk_app(w, op):
                           identity_group=('g%d' % grp) if grp else None,
                           traits=traits, schedule_once=bool(once))
     app.global_order = w.now_order       # deterministic FIFO tie-break
+    w.spec_lease[app.name] = lease
+    w.spec_bl[app.name] = False
     return app
 
 
@@ -639,6 +715,7 @@ def _add_server(w, sid, pid_, cap, label, traits, vu):
     s = w.sch.Server(sname(sid), cap, valid_until=vu, label=w.labels[label], traits=traits)
     w.nodes[pid_].add_node(s)
     w.servers[sid] = s
+    w.shadow_state[s.name] = ('up', w.now)
 
 
 def _cycle(w, run, pid, stats):
@@ -746,6 +823,8 @@ def _run(case, pid, run, w, stats):
             if a is None or a.name not in w.cell.apps:
                 return
 
+            w.spec_bl[a.name] = bool(bl)
+
             def f():
                 a.priority = prio
                 a.data_retention_timeout = ret
@@ -759,6 +838,7 @@ def _run(case, pid, run, w, stats):
             if k == 'prio':
                 _emit(run, w, 'prio %d %d' % (op[1], op[2]), lambda: setattr(a, 'priority', op[2]))
             elif k == 'bl':
+                w.spec_bl[a.name] = bool(op[2])
                 _emit(run, w, 'bl %d %d' % (op[1], op[2]), lambda: setattr(a, 'blacklisted', bool(op[2])))
             elif k == 'unsched':
                 _emit(run, w, 'unsched %d 1' % op[1], lambda: setattr(a, 'unschedule', True))
@@ -770,6 +850,8 @@ def _run(case, pid, run, w, stats):
             s = w.servers.get(op[1])
             if s is None:
                 return
+            if w.shadow_state.get(s.name, (None, None))[0] != op[2]:
+                w.shadow_state[s.name] = (op[2], w.now)
             _emit(run, w, 'state %d %s %d' % (op[1], op[2], w.now),
                   lambda: setattr(s, 'state', sch.State(op[2])))
         elif k == 'tick':
